@@ -166,11 +166,13 @@ type Runner struct {
 	Opt   Opt
 	DB    *kv.DB
 	Model map[string][]byte
-	Probe map[string]struct{} // keys that must be reported not-found
-	Ops   []Op
-	Ctr   uint64
-	IO    *IOLog
-	F     Features
+	// Queued holds ops the generator has already decided on (multi-op idioms)
+	Queued []Op
+	Probe  map[string]struct{} // keys that must be reported not-found
+	Ops    []Op
+	Ctr    uint64
+	IO     *IOLog
+	F      Features
 
 	batchKeys map[string]bool
 	plainKeys map[string]bool
